@@ -371,6 +371,21 @@ func scenarios() []scenario {
 				w.Want = "fail"
 				ws = append(ws, w)
 			}
+			// code of every length 8..72 that jumps once and ends in a PUSHn cut off by the end of the code (the analysis
+			// has to account for push data beyond the last byte)
+			for l := 8; l <= 72; l++ {
+				for _, k := range []int{1, 2, 8, 9, 16, 24, 31, 32} {
+					code := []byte{opPUSH1, 3, opJUMP}
+					for len(code) < l-1 {
+						code = append(code, opJUMPDEST)
+					}
+					code = append(code, byte(opPUSH1+k-1))
+					w := miniWorld(gal, code, nil, 100000)
+					w.Note = fmt.Sprintf("code of %d bytes: a jump, then JUMPDESTs, ending in a PUSH%d without data", l, k)
+					w.Want = "ok"
+					ws = append(ws, w)
+				}
+			}
 			return ws
 		})
 	}, nil)
@@ -398,6 +413,39 @@ func scenarios() []scenario {
 					}
 					ws = append(ws, w)
 				}
+			}
+			// every opcode that grows the stack by one, on 1023 and on 1024 items; every SWAP on a full stack
+			grow1 := []byte{opPC, opMSIZE, opGAS, opADDRESS, opCALLER, opCALLVALUE, opCALLDATASIZE, opCODESIZE, opGASPRICE, opORIGIN, opRETURNDATASIZE}
+			for k := 0; k < 16; k++ {
+				grow1 = append(grow1, byte(opDUP1+k))
+			}
+			for _, n := range []int{1023, 1024} {
+				for _, o := range grow1 {
+					a := pushes(n)
+					a.op(o, opSTOP)
+					w := miniWorld(gal, a.done(), nil, 1000000)
+					w.Note = fmt.Sprintf("%d pushes then %s", n, opName(o))
+					w.Want = map[bool]string{true: "fail", false: "ok"}[n+1 > 1024]
+					ws = append(ws, w)
+				}
+				for k := 1; k <= 32; k++ {
+					a := pushes(n)
+					a.op(byte(opPUSH1 + k - 1))
+					a.op(bytes.Repeat([]byte{0x11}, k)...)
+					a.op(opSTOP)
+					w := miniWorld(gal, a.done(), nil, 1000000)
+					w.Note = fmt.Sprintf("%d pushes then PUSH%d", n, k)
+					w.Want = map[bool]string{true: "fail", false: "ok"}[n+1 > 1024]
+					ws = append(ws, w)
+				}
+			}
+			for k := 0; k < 16; k++ {
+				a := pushes(1024)
+				a.op(byte(opSWAP1+k), opSTOP)
+				w := miniWorld(gal, a.done(), nil, 1000000)
+				w.Note = fmt.Sprintf("1024 pushes then SWAP%d", k+1)
+				w.Want = "ok"
+				ws = append(ws, w)
 			}
 			// in a sub-call: the callee overflows, the caller sees 0
 			for _, n := range []int{1024, 1025} {
